@@ -59,7 +59,7 @@ fn main() {
         let w = load_witness(p);
         match id {
             "C01" | "C04" => vh::c01::replay(&ctx, id, &w),
-            "C02" => vh::c02::replay(&ctx, &w),
+            "C02" => vh::c02::replay(&ctx, &w, std::env::var("VERIF_REPO_BIN").ok()),
             "C03" => vh::c03::replay(&ctx, &w),
             "C05" => vh::c05::replay(&ctx, &w),
             "C06" => vh::c06::replay(&ctx, &w),
@@ -82,7 +82,7 @@ fn main() {
     } else {
         match id {
             "C01" | "C04" => vh::c01::main(&ctx, id),
-            "C02" => vh::c02::main(&ctx),
+            "C02" => vh::c02::main(&ctx, std::env::var("VERIF_REPO_BIN").ok()),
             "C03" => vh::c03::main(&ctx),
             "C05" => vh::c05::main(&ctx),
             "C06" => vh::c06::main(&ctx),
